@@ -23,3 +23,9 @@ Print Assumptions C13_telescoping_max.
 Theorem C13_sum_disjoint_union : forall (S1 S2 : Sat.tupset) (l1 l2 : list (list sym)), Sat.enumerates S1 l1 -> Sat.enumerates S2 l2 -> (forall tv : list sym, S1 tv -> S2 tv -> False) -> Sat.enumerates (fun tv : list sym => S1 tv \/ S2 tv) (l1 ++ l2) /\ Sat.sum_of (l1 ++ l2) = (Sat.sum_of l1 + Sat.sum_of l2)%Z.
 Proof. exact (@sum_disjoint_union_proof). Qed.
 Print Assumptions C13_sum_disjoint_union.
+
+From NGO Require Import Syntax.Ast Sem.Sym Sem.Sat Link.Ground.
+
+Theorem C13_supported_nonground : forall (sym_lt : sym -> sym -> Prop) (P : program) (I : list gatom) (T : interp) (a : gatom), simple_prog P = true -> stable sym_lt P I T -> T a -> In a I \/ (exists (line : nat) (h : head) (b : list bodyelem) (s : subst), In (SRule line h b) P /\ head_derives s h a /\ body_sat sym_lt (gvars_rule h b) T T s b).
+Proof. exact (@supported_nonground). Qed.
+Print Assumptions C13_supported_nonground.
